@@ -547,7 +547,12 @@ pub fn eval_unit_name(
                 // does not bound: `liter/dm^3` is the number one.
                 let unit = left_unit
                     .into_iter()
-                    .map(|(k, v)| v.checked_mul(right as isize).map(|v| (k, v)))
+                    .map(|(k, v)| {
+                        v.checked_mul(right as isize)
+                            // sums of tens of thousands of these still fit
+                            .filter(|v| v.unsigned_abs() <= (isize::MAX as usize) >> 16)
+                            .map(|v| (k, v))
+                    })
                     .collect::<Option<BTreeMap<_, _>>>()
                     .ok_or_else(|| {
                         QueryError::generic(
